@@ -274,4 +274,204 @@ theorem eqMapVal_refl (S : Schema) : ∀ (x : Val) (tl ys : Vals) (ei : Nat), wf
   | .bytes _, _, _, _, _, _ => by simp [eqMapVal]
 end
 
+/-! ### symmetry on well-formed values (only the left argument needs to be well-formed) -/
+
+theorem eqFields_iff_mem (S : Schema) (d : MsgD) (ys xs : Fields) :
+    eqFields S d ys xs = true ↔ ∀ n fy, (n, fy) ∈ ys.toList →
+      ∃ f fx, d.find n = some f ∧ xs.get? n = some fx ∧ eqFVal S f fy fx = true := by
+  induction ys using Fields.ind with
+  | nil => simp [eqFields, Fields.toList]
+  | cons m y tl ih =>
+    rw [eqFields, Bool.and_eq_true, ih]
+    constructor
+    · rintro ⟨h1, h2⟩ n fy hm
+      simp only [Fields.toList, List.mem_cons, Prod.mk.injEq] at hm
+      rcases hm with ⟨e1, e2⟩ | hm
+      · subst e1; subst e2
+        split at h1
+        · rename_i f fx hf hx; exact ⟨f, fx, hf, hx, h1⟩
+        · cases h1
+      · exact h2 n fy hm
+    · intro h
+      constructor
+      · obtain ⟨f, fx, hf, hx, he⟩ := h m y (by simp [Fields.toList])
+        simp only [hf, hx, he]
+      · intro n fy hm
+        exact h n fy (by simp [Fields.toList, hm])
+
+theorem eqMapVals_iff_mem (S : Schema) (ei : Nat) (ys xs : Vals) :
+    eqMapVals S ei ys xs = true ↔ ∀ v ∈ ys.toList, eqMapVal S ei v xs = true := by
+  induction ys using Vals.ind with
+  | nil => simp [eqMapVals, Vals.toList]
+  | cons y tl ih =>
+    rw [eqMapVals, Bool.and_eq_true, ih]
+    simp [Vals.toList]
+
+/-- from "every field of `xs` has a counterpart in `ys` that is equal to it *from the right*"
+to `eqFields ys xs` -/
+theorem eqFields_flip (S : Schema) (d : MsgD) (xs ys : Fields) (hn : xs.nums.Nodup)
+    (hl : xs.nums.length = ys.nums.length)
+    (h : ∀ n fx, xs.get? n = some fx →
+      ∃ f fy, d.find n = some f ∧ ys.get? n = some fy ∧ eqFVal S f fy fx = true) :
+    eqFields S d ys xs = true := by
+  rw [eqFields_iff_mem]
+  let R : (Nat × FVal) → (Nat × FVal) → Prop := fun x y =>
+    x.1 = y.1 ∧ ∃ f, d.find x.1 = some f ∧ eqFVal S f y.2 x.2 = true
+  have hp := pigeonhole R xs.toList ys.toList (Fields.toList_nodup hn)
+    (by rw [Fields.toList_length, Fields.toList_length, hl]; exact Nat.le_refl _)
+    (by
+      rintro ⟨n, fx⟩ hx
+      obtain ⟨f, fy, hf, hy, he⟩ := h n fx (Fields.get?_of_mem hn hx)
+      exact ⟨(n, fy), Fields.mem_of_get? hy, rfl, f, hf, he⟩)
+    (by
+      rintro ⟨n, fx⟩ hx ⟨n', fx'⟩ hx' ⟨m, fy⟩ ⟨e1, _⟩ ⟨e2, _⟩
+      simp only at e1 e2
+      subst e1; subst e2
+      have a := Fields.get?_of_mem hn hx
+      have b := Fields.get?_of_mem hn hx'
+      rw [a] at b
+      cases b
+      rfl)
+  intro n fy hm
+  obtain ⟨⟨n', fx⟩, hx, e, f, hf, he⟩ := hp (n, fy) hm
+  simp only at e hf he
+  subst e
+  exact ⟨f, fx, hf, Fields.get?_of_mem hn hx, he⟩
+
+theorem eqMapVals_flip (S : Schema) (ei : Nat) (xs ys : Vals) (hw : wfEntries S ei xs = true)
+    (hl : xs.toList.length = ys.toList.length)
+    (h : ∀ k ex, lookupEntry xs k = some ex →
+      ∃ ey, lookupEntry ys k = some ey ∧ eqMsg S ei ey ex = true) :
+    eqMapVals S ei ys xs = true := by
+  rw [eqMapVals_iff_mem]
+  let R : Val → Val → Prop := fun x y =>
+    ∃ ex ey k, x = .msg ex ∧ y = .msg ey ∧ lookupEntry xs k = some ex ∧
+      lookupEntry ys k = some ey ∧ eqMsg S ei ey ex = true
+  have hp := pigeonhole R xs.toList ys.toList (wfEntries_nodup hw) (by rw [hl]; exact Nat.le_refl _)
+    (by
+      intro x hx
+      obtain ⟨e, k, hv, _, _, hlk, _⟩ := wfEntries_mem hw hx
+      obtain ⟨ey, hy, he⟩ := h k e hlk
+      exact ⟨.msg ey, lookupEntry_mem hy, e, ey, k, hv, rfl, hlk, hy, he⟩)
+    (by
+      rintro x _ x' _ y ⟨ex, ey, k, rfl, rfl, h1, h2, _⟩ ⟨ex', ey', k', rfl, e, h1', h2', _⟩
+      cases e
+      have a := (lookupEntry_key h2).1
+      have b := (lookupEntry_key h2').1
+      rw [a] at b
+      cases b
+      rw [h1] at h1'
+      cases h1'
+      rfl)
+  intro v hv
+  obtain ⟨x, _, ex, ey, k, rfl, rfl, h1, h2, he⟩ := hp v hv
+  rw [eqMapVal, (lookupEntry_key h2).1]
+  simp only [h1, he]
+
+mutual
+theorem eqMsg_symm (S : Schema) : ∀ (x y : Msg) (mi : Nat), wfMsg S mi x = true →
+    eqMsg S mi x y = true → eqMsg S mi y x = true
+  | .mk xs xu, .mk ys yu, mi, hw, h => by
+    rw [wfMsg] at hw
+    simp only [eqMsg, Bool.and_eq_true, beq_iff_eq] at h ⊢
+    exact ⟨⟨eqFields_flip S _ xs ys (wfFields_nodup hw) h.1.2 (eqFields_symm S xs ys _ hw h.1.1),
+      h.1.2.symm⟩, unknownEq_symm _ _ h.2⟩
+theorem eqFields_symm (S : Schema) : ∀ (xs ys : Fields) (d : MsgD), wfFields S d xs = true →
+    eqFields S d xs ys = true → ∀ n fx, xs.get? n = some fx →
+      ∃ f fy, d.find n = some f ∧ ys.get? n = some fy ∧ eqFVal S f fy fx = true
+  | .nil, _, _, _, _, _, _, hg => by simp [Fields.get?] at hg
+  | .cons m fv tl, ys, d, hw, h, n, fx, hg => by
+    rw [wfFields, Bool.and_eq_true, Bool.and_eq_true] at hw
+    rw [eqFields, Bool.and_eq_true] at h
+    rw [Fields.get?_cons] at hg
+    split at hg
+    · rename_i hm
+      subst hm
+      cases hg
+      have h1 := h.1
+      split at h1
+      · rename_i f fy hf hy
+        have hwv := hw.1.1
+        rw [hf] at hwv
+        exact ⟨f, fy, hf, hy, eqFVal_symm S fv fy f hwv h1⟩
+      · cases h1
+    · exact eqFields_symm S tl ys d hw.2 h.2 n fx hg
+theorem eqFVal_symm (S : Schema) : ∀ (x y : FVal) (f : Field), wfFVal S f x = true →
+    eqFVal S f x y = true → eqFVal S f y x = true
+  | .one a, .one b, f, hw, h => by
+    rw [wfFVal] at hw
+    rw [eqFVal] at h ⊢
+    exact eqVal_symm S a b f hw h
+  | .many as, .many bs, f, hw, h => by
+    rw [wfFVal] at hw
+    rw [eqFVal] at h ⊢
+    split
+    · rename_i hm
+      simp only [hm, if_true, Bool.and_eq_true, beq_iff_eq] at hw h ⊢
+      exact ⟨eqMapVals_flip S _ as bs hw h.2 (eqMapVals_symm S as bs _ hw h.1), h.2.symm⟩
+    · rename_i hm
+      simp only [hm, if_false] at hw h
+      exact eqVals_symm S as bs f hw h
+  | .one _, .many _, _, _, h => by simp [eqFVal] at h
+  | .many _, .one _, _, _, h => by simp [eqFVal] at h
+theorem eqVal_symm (S : Schema) : ∀ (x y : Val) (f : Field), wfVal S f x = true →
+    eqVal S f x y = true → eqVal S f y x = true
+  | .num a, .num b, f, _, h => by
+    simp only [eqVal] at h ⊢
+    rw [numEq_symm]; exact h
+  | .bytes a, .bytes b, f, _, h => by
+    simp only [eqVal, beq_iff_eq] at h ⊢
+    exact h.symm
+  | .msg a, .msg b, f, hw, h => by
+    rw [wfVal] at hw
+    simp only [eqVal] at h ⊢
+    exact eqMsg_symm S a b _ hw h
+  | .num _, .bytes _, _, _, h => by simp [eqVal] at h
+  | .num _, .msg _, _, _, h => by simp [eqVal] at h
+  | .bytes _, .num _, _, _, h => by simp [eqVal] at h
+  | .bytes _, .msg _, _, _, h => by simp [eqVal] at h
+  | .msg _, .num _, _, _, h => by simp [eqVal] at h
+  | .msg _, .bytes _, _, _, h => by simp [eqVal] at h
+theorem eqVals_symm (S : Schema) : ∀ (xs ys : Vals) (f : Field), wfVals S f xs = true →
+    eqVals S f xs ys = true → eqVals S f ys xs = true
+  | .nil, .nil, _, _, _ => by simp [eqVals]
+  | .cons a as, .cons b bs, f, hw, h => by
+    rw [wfVals, Bool.and_eq_true] at hw
+    simp only [eqVals, Bool.and_eq_true] at h ⊢
+    exact ⟨eqVal_symm S a b f hw.1 h.1, eqVals_symm S as bs f hw.2 h.2⟩
+  | .nil, .cons _ _, _, _, h => by simp [eqVals] at h
+  | .cons _ _, .nil, _, _, h => by simp [eqVals] at h
+theorem eqMapVals_symm (S : Schema) : ∀ (xs ys : Vals) (ei : Nat), wfEntries S ei xs = true →
+    eqMapVals S ei xs ys = true → ∀ k ex, lookupEntry xs k = some ex →
+      ∃ ey, lookupEntry ys k = some ey ∧ eqMsg S ei ey ex = true
+  | .nil, _, _, _, _, _, _, hl => by simp [lookupEntry] at hl
+  | .cons v tl, ys, ei, hw, h, k, ex, hl => by
+    rw [wfEntries, Bool.and_eq_true] at hw
+    rw [eqMapVals, Bool.and_eq_true] at h
+    cases v with
+    | msg e =>
+      rw [lookupEntry_cons_msg] at hl
+      split at hl
+      · rename_i hk
+        cases hl
+        exact eqMapVal_symm S (.msg ex) tl ys ei hw.1 h.1 k ex rfl ((entryHasKey_iff _ _).mp hk).1
+      · exact eqMapVals_symm S tl ys ei hw.2 h.2 k ex hl
+    | num n => exact eqMapVals_symm S tl ys ei hw.2 h.2 k ex hl
+    | bytes b => exact eqMapVals_symm S tl ys ei hw.2 h.2 k ex hl
+theorem eqMapVal_symm (S : Schema) : ∀ (x : Val) (tl ys : Vals) (ei : Nat), wfEntry S ei tl x = true →
+    eqMapVal S ei x ys = true → ∀ k ex, x = .msg ex → entryKey ex = some k →
+      ∃ ey, lookupEntry ys k = some ey ∧ eqMsg S ei ey ex = true
+  | .msg e, tl, ys, ei, hw, h, k, ex, hx, hk => by
+    cases hx
+    rw [wfEntry, Bool.and_eq_true] at hw
+    rw [eqMapVal, hk] at h
+    simp only at h
+    split at h
+    · rename_i ey hy
+      exact ⟨ey, hy, eqMsg_symm S e ey ei hw.2 h⟩
+    · cases h
+  | .num _, _, _, _, _, _, _, _, hx, _ => by cases hx
+  | .bytes _, _, _, _, _, _, _, _, hx, _ => by cases hx
+end
+
 end C30
